@@ -5,7 +5,7 @@
 use crate::like::{self, Family, LikeWorld, Xform};
 use crate::oracle::Alpha;
 use crate::tables::*;
-use crate::{concat, needle, regexp, substr};
+use crate::{concat, empty, needle, regexp, substr};
 use vcore::serde_json::{Value, json};
 use vcore::{Ctx, Level, Stats, par_for};
 
@@ -25,12 +25,14 @@ pub struct Bounds {
     /// scalar-haystack x pattern-column engine
     pub ls_hay_len: usize,
     pub ls_pat_len: usize,
+    /// extra LIKE pass with longer haystacks and shorter patterns: (haystack len, pattern len)
+    pub like_long: Option<(usize, usize)>,
 }
 pub fn bounds(quick: bool) -> Bounds {
     if quick {
-        Bounds { tier: "quick", hay_len: 3, pat_len: 4, needle_len: 2, bin_len: 3, re_len: 4, ls_hay_len: 2, ls_pat_len: 3 }
+        Bounds { tier: "quick", hay_len: 3, pat_len: 4, needle_len: 2, bin_len: 3, re_len: 4, ls_hay_len: 2, ls_pat_len: 3, like_long: None }
     } else {
-        Bounds { tier: "thorough", hay_len: 3, pat_len: 5, needle_len: 3, bin_len: 4, re_len: 5, ls_hay_len: 2, ls_pat_len: 4 }
+        Bounds { tier: "thorough", hay_len: 3, pat_len: 5, needle_len: 3, bin_len: 4, re_len: 5, ls_hay_len: 2, ls_pat_len: 4, like_long: Some((4, 3)) }
     }
 }
 
@@ -159,12 +161,12 @@ fn hays_of(len: usize) -> Vec<String> {
     strings_over(&haystack_alphabet(), len)
 }
 
-pub fn build_like_world(b: &Bounds) -> LikeWorld {
+pub fn build_like_world(sub: &'static str, hay_len: usize, pat_len: usize) -> LikeWorld {
     let alpha = run_alpha();
-    let hays = hays_of(b.hay_len);
-    let pats = strings_over(&PAT_SYMS, b.pat_len);
+    let hays = hays_of(hay_len);
+    let pats = strings_over(&PAT_SYMS, pat_len);
     let fams = build_str_families(&alpha, &hays);
-    LikeWorld { alpha, pats, fams }
+    LikeWorld { sub, alpha, pats, fams }
 }
 
 fn build_needle_str(b: &Bounds) -> needle::NeedleWorld {
@@ -207,6 +209,7 @@ const BASE_CONCAT_STR: u64 = 12 << 56;
 const BASE_CONCAT_BIN: u64 = 13 << 56;
 const BASE_CONCAT_PACKED: u64 = 14 << 56;
 const BASE_CONCAT_FSB: u64 = 15 << 56;
+const BASE_EMPTY: u64 = 16 << 56;
 
 fn replay(case: &Value) -> ! {
     println!("replay case: {case}");
@@ -216,7 +219,12 @@ fn replay(case: &Value) -> ! {
     let gu = |k: &str| case[k].as_u64().map(|v| v as usize);
     match sub.as_str() {
         "like" => {
-            let w = build_like_world(&b);
+            let w = build_like_world("like", b.hay_len, b.pat_len);
+            like::run_pattern(&w, gu("pattern_index").unwrap_or(0), &mut st, true);
+        }
+        "like-long" => {
+            let (h, p) = b.like_long.unwrap_or((4, 3));
+            let w = build_like_world("like-long", h, p);
             like::run_pattern(&w, gu("pattern_index").unwrap_or(0), &mut st, true);
         }
         "like-lscalar" => {
@@ -273,6 +281,20 @@ pub fn run(ctx: &Ctx) -> ! {
     let want = |s: &str| only.as_deref().is_none_or(|o| o == s);
     let lap = |what: &str| eprintln!("[c20] {what} at {:.1}s", ctx.start.elapsed().as_secs_f64());
 
+    // ---- zero-length inputs
+    if want("empty") {
+        let mut k = 0;
+        for kind in empty::KINDS {
+            for le in empty::ENCS {
+                for re in empty::ENCS {
+                    empty::run(kind, le, re, &mut st, BASE_EMPTY + k);
+                    k += 1;
+                }
+            }
+        }
+        st.sample("empty", || json!({"kinds": empty::KINDS.len(), "encodings": format!("{:?}", empty::ENCS)}));
+        lap("empty done");
+    }
     // ---- like: scalar haystack x pattern column
     if want("like-lscalar") {
         let (alpha, w) = build_lscalar(&b);
@@ -360,12 +382,18 @@ pub fn run(ctx: &Ctx) -> ! {
 
     // ---- like: array x (scalar pattern | pattern column); the largest sub-engine runs last
     if want("like") {
-        let w = build_like_world(&b);
+        let w = build_like_world("like", b.hay_len, b.pat_len);
         lap(&format!("like world built ({} patterns x {} haystacks)", w.pats.len(), w.fams[0].table.len()));
         st.merge(par_for(ctx, "like", w.pats.len() as u64, 2, |idx, st| like::run_pattern(&w, idx as usize, st, false)));
         st.extra.insert("regex_fold_pairs_in_alphabet".into(), json!(w.alpha.fold_pairs()));
         st.extra.insert("like_columns".into(), json!(w.fams.iter().map(|f| json!({"family": f.name, "haystacks": f.table.len(), "columns": f.cols.iter().map(|c| format!("{} ({} rows)", c.name, c.len())).collect::<Vec<_>>()})).collect::<Vec<_>>()));
         lap("like done");
+    }
+    if let (true, Some((h, p))) = (want("like-long"), b.like_long) {
+        let w = build_like_world("like-long", h, p);
+        lap(&format!("like-long world built ({} patterns x {} haystacks)", w.pats.len(), w.fams[0].table.len()));
+        st.merge(par_for(ctx, "like-long", w.pats.len() as u64, 1, |idx, st| like::run_pattern(&w, idx as usize, st, false)));
+        lap("like-long done");
     }
     // make every replay file self-describing about the bounds it was found under
     for v in &mut st.violations {
@@ -373,7 +401,7 @@ pub fn run(ctx: &Ctx) -> ! {
             o.insert("tier".into(), json!(b.tier));
         }
     }
-    st.extra.insert("bounds".into(), json!({"haystack_len": b.hay_len, "like_pattern_len": b.pat_len, "needle_len": b.needle_len, "byte_string_len": b.bin_len, "regex_len": b.re_len, "lhs_scalar_haystack_len": b.ls_hay_len, "lhs_scalar_pattern_len": b.ls_pat_len, "substring_start": "-5..=5", "substring_length": "None, 0..=5"}));
+    st.extra.insert("bounds".into(), json!({"haystack_len": b.hay_len, "like_pattern_len": b.pat_len, "needle_len": b.needle_len, "byte_string_len": b.bin_len, "regex_len": b.re_len, "lhs_scalar_haystack_len": b.ls_hay_len, "lhs_scalar_pattern_len": b.ls_pat_len, "like_long_pass_haystack_len_pattern_len": b.like_long.map(|(h, p)| vec![h, p]), "substring_start": "-5..=5", "substring_length": "None, 0..=5"}));
     if let Some(o) = &only {
         st.cap(format!("--only={o}: other sub-engines skipped"));
     }
